@@ -80,10 +80,13 @@ def object_case(rep: Report, rec: dict, cls) -> None:
 # ------------------------------------------------------------------ C->S, file level
 FORMS = {
     frozenset(): ["", None],  # handled specially ("noqa" or "=all")
-    frozenset({"A"}): ["LT01", "layout.spacing", "L039", "LT0[1]", "L?01,L?01", "LT01,XX99"],
+    frozenset({"A"}): ["LT01", "layout.spacing", "L039", "LT0[1]", "L?01,L?01", "LT01,XX99", "XX99,LT01"],
     frozenset({"B"}): ["CP01", "capitalisation.keywords", "L010", "CP0[1]", "capitalisation.keyw*"],
     frozenset({"A", "B"}): ["LT01,CP01", "core", "CP01, LT01", "*0[1]", "layout,capitalisation", "layout.spacing,L010"],
-    frozenset({"PRS"}): ["PRS", "PRS,ZZ99"],
+    frozenset({"PRS"}): ["PRS", "PRS,ZZ99", "ZZ99, PRS"],
+    # lists mixing references that resolve through the rule reference map with the special codes, in both orders
+    frozenset({"A", "PRS"}): ["LT01,PRS", "PRS,LT01", "layout.spacing, PRS", "L?01,PRS", "PRS,L039", "layout,PRS"],
+    frozenset({"B", "PRS"}): ["CP01,PRS", "PRS, capitalisation.keywords", "capitalisation,PRS,ZZ99", "L010,PRS"],
 }
 
 
@@ -229,7 +232,7 @@ def run(tier: str, seed: int) -> int:
                       f"lint of generated file rejected at step {r['step']}: {t['sql']!r} dirs={t['dirs']} events={t['events']}",
                       {"kind": "file", "trace": t, "verdict": r})
     rep.sample({"file_case_sql": traces[0]["sql"], "dirs": traces[0]["dirs"], "events": traces[0]["events"]})
-    rep.rule = ("TLC enumerates every sorted directive list (plain/disable/enable x 5 rule sets x 3 lines) and every "
+    rep.rule = ("TLC enumerates every sorted directive list (plain/disable/enable x 7 rule sets x 3 lines) and every "
                 "violation set of the scope; non-trivial = at least two directives and at least one hidden violation; "
                 "distinct by (directives, violations)")
     rep.trusted_base = ["object builders for NoQaDirective/SQLBaseError", "file concretiser (comment placement, "
